@@ -178,6 +178,16 @@ func (e *Echoer) SeeBase(x *Base) string   { return renderGo(x) }
 func (e *Echoer) SeeDeep4(x *Deep4) string { return renderGo(x) }
 func (e *Echoer) SeeChain(x *Chain) string { return renderGo(x) }
 
+// Self: a method called ON a record (the record is the receiver and is converted implicitly).
+func (x *Leaf) Self() string  { return renderGo(x) }
+func (x *Flat) Self() string  { return renderGo(x) }
+func (x *Mid) Self() string   { return renderGo(x) }
+func (x *Top) Self() string   { return renderGo(x) }
+func (x *Clash) Self() string { return renderGo(x) }
+func (x *Base) Self() string  { return renderGo(x) }
+func (x *Deep4) Self() string { return renderGo(x) }
+func (x *Chain) Self() string { return renderGo(x) }
+
 type regEntry struct {
 	name string
 	mk   func() interface{}
